@@ -31,6 +31,7 @@ type decodeOutcome struct {
 	err     error
 	panicV  any
 	spin    bool
+	blocked bool
 	reads   int
 	shorts  int
 	stack   string
@@ -98,6 +99,10 @@ func decodeWith(data []byte, plan simio.Plan, c *worker.Ctx) (out decodeOutcome)
 		if v := recover(); v != nil {
 			if v == simio.SpinSentinel {
 				out.spin = true
+				return
+			}
+			if v == simio.WouldBlock {
+				out.blocked = true
 				return
 			}
 			out.panicV = v
@@ -290,6 +295,27 @@ func c19RoundTrip(c *worker.Ctx, src string, stmts []ast.Statement, enc []byte) 
 				res.Violate("C19/delivery", "C19/delivery:short-read-misdecode", fmt.Sprintf("same bytes decode differently under %s: %s", plan, d))
 			}
 		}
+	}
+	// R3 open stream: the peer keeps its end open after the message (a host
+	// feeding a long-lived plugin, a socket). The message ends at its FIN
+	// frame; a decoder that asks for one more byte never returns.
+	if len(res.Violations) == 0 && base.err == nil {
+		op := plan
+		op.Terminal = "open"
+		open := decodeWith(enc, op, c)
+		switch {
+		case open.blocked:
+			res.Violate("C19/delivery", "C19/open-stream-blocks", fmt.Sprintf("the decoder read past the end of a complete %d-byte message (delivery %s) on a stream the peer keeps open: Decode never returns\nsource:\n%s", len(enc), op, clipSrc(src)))
+		case open.panicV != nil:
+			res.Violate("C19/delivery", "C19/delivery-panic:"+open.stack+":"+panicClass(open.panicV), fmt.Sprintf("decoder panicked under %s: %v", op, open.panicV))
+		case open.err != nil:
+			res.Violate("C19/delivery", "C19/delivery:short-read-misdecode", fmt.Sprintf("same bytes, delivery %s: err=%v; all-at-once: no error\nsource:\n%s", op, open.err, clipSrc(src)))
+		default:
+			if d := astcmp.Diff(base.stmts, open.stmts); d != "" {
+				res.Violate("C19/delivery", "C19/delivery:short-read-misdecode", fmt.Sprintf("same bytes decode differently under %s: %s", op, d))
+			}
+		}
+		res.Probe("open_stream_decoded")
 	}
 }
 
